@@ -1105,6 +1105,7 @@ def _b(V, L, cid):
     E = L.F.EKF
     return [C('batch gyr,acc', lambda: {'gyr': V.GYR, 'acc': V.ACC}, lambda a: E(a['gyr'], a['acc']), tags=('batch',)),
             C('batch gyr,acc,mag', lambda: _gam(V), lambda a: E(a['gyr'], a['acc'], a['mag']), tags=('batch',)),
+            C('batch gyr,acc,mag ENU (default reference)', lambda: _gam(V), lambda a: E(a['gyr'], a['acc'], a['mag'], frame='ENU'), tags=('batch',)),
             C('batch gyr,acc,mag q0= P= magnetic_ref= noises=', lambda: dict(_gam(V), q0=V.q, P=V.P4, magnetic_ref=V.mref, noises=np.array([0.1, 0.2, 0.3])),
               lambda a: E(a['gyr'], a['acc'], a['mag'], q0=a['q0'], P=a['P'], magnetic_ref=a['magnetic_ref'], noises=a['noises']), tags=('batch', 'optional-array')),
             C('batch ENU magnetic_ref=', lambda: dict(_gam(V), magnetic_ref=V.mref), lambda a: E(a['gyr'], a['acc'], a['mag'], frame='ENU', magnetic_ref=a['magnetic_ref']), tags=('batch', 'optional-array')),
@@ -1418,7 +1419,32 @@ def _cases_for(cid, inv, V, L):
     return None
 
 
+def _pristine_eval(cid, ci, k, scale):
+    """Evaluate one case once, in a process that has done nothing else with the library (executed in a forked child)."""
+    L = Lib()
+    inv = inventory.discover()
+    V = Values(k, scale)
+    case = _cases_for(cid, inv, V, L)[ci]
+    _seed_history(L, k)
+    _seed_call(L, case.get('rng'), k)
+    out = _invoke(case['call'], case['make']())
+    return (out[0], freeze(out[1])) if out[0] == 'ok' else out
+
+
 def job_callables(ctx, ids, k, scale=1.0):
+    # baselines first, while this process is still pristine: every case evaluated alone in its own forked child
+    baseline = {}
+    if scale == 1.0:
+        inv0 = inventory.discover()
+        L0 = Lib()
+        V0 = Values(k, scale)
+        for cid in ids:
+            for ci, case in enumerate(_cases_for(cid, inv0, V0, L0) or []):
+                if not case.get('random') and not case.get('exempt'):
+                    try:
+                        baseline[(cid, ci)] = core.in_fresh_child(_pristine_eval, cid, ci, k, scale)
+                    except Exception:
+                        pass        # results that cannot cross a process boundary are not compared
     L = Lib()
     inv = inventory.discover()
     V = Values(k, scale)
@@ -1439,6 +1465,44 @@ def job_callables(ctx, ids, k, scale=1.0):
                     n_ok += bool(ok)
                     if not ok and cont == 'nd':
                         refusals.append(f'{case["profile"]}: {why[1]}: {why[2][:80]}')
+            # interleaved history: call(profile i), call(profile j != i), call(profile i) with freshly built, equal arguments; the first and
+            # the third answers must be identical (a result may not depend on which other arguments the same callable served in between)
+            usable = [c for c in cases if not c.get('random') and not c.get('exempt')]
+            for ci, case in enumerate(usable):
+                if len(usable) < 2:
+                    break
+                other = usable[(ci + 1) % len(usable)]
+                rng = case.get('rng')
+                _seed_history(L, k)
+                _seed_call(L, rng, k)
+                r1 = _invoke(case['call'], case['make']())
+                _seed_call(L, other.get('rng'), k)
+                _invoke(other['call'], other['make']())
+                _seed_call(L, rng, k)
+                r3 = _invoke(case['call'], case['make']())
+                ctx.transitions += 3
+                ctx.traces += 1
+                ctx.evals += 1
+                f1 = (r1[0], freeze(r1[1])) if r1[0] == 'ok' else r1
+                f3 = (r3[0], freeze(r3[1])) if r3[0] == 'ok' else r3
+                if f1 != f3:
+                    ctx.fail(f'{cid} returns the same result after serving other arguments in between', f'profile={case["profile"]} other={other["profile"]} k={k}',
+                             render(r3[1]) if r3[0] == 'ok' else list(r3), render(r1[1]) if r1[0] == 'ok' else list(r1), 0)
+                ctx.cls('history:interleaved')
+            # the same case again, now that this process has served many other calls: equal to the pristine-process answer
+            for ci, case in enumerate(cases):
+                if (cid, ci) not in baseline:
+                    continue
+                _seed_history(L, k)
+                _seed_call(L, case.get('rng'), k)
+                out = _invoke(case['call'], case['make']())
+                fnow = (out[0], freeze(out[1])) if out[0] == 'ok' else out
+                ctx.evals += 1
+                ctx.traces += 2
+                if fnow != baseline[(cid, ci)]:
+                    ctx.fail(f'{cid} returns the same result in a used process as in a pristine one', f'profile={case["profile"]} k={k}',
+                             render(out[1]) if out[0] == 'ok' else list(out), 'the answer given in a fresh process', 0)
+                ctx.cls('history:vs-pristine-process')
             status[cid] = [n_ok, n_all]
             if n_ok == 0:
                 refused_all[cid] = refusals[:3]
